@@ -390,6 +390,21 @@ pub fn history(rng: &mut Rng, r: &mut Report, rp: &dyn Fn() -> Json, cover: usiz
     if fn_open && b.end_function().is_err() {
         return None;
     }
+    let mut version = version;
+    // the version may be set at any time, also after everything else ...
+    if rng.chance(1, 4) {
+        let v = (rng.below(256) as u8, rng.below(256) as u8);
+        b.set_version(v.0, v.1);
+        log.push(format!("set_version({}, {})", v.0, v.1));
+        version = Some(v);
+    }
+    // ... and the id allocated last may be one that is only referenced (a forward reference, a name for an id
+    // defined elsewhere): the bound must still be above it
+    if rng.chance(1, 2) {
+        let late = b.id();
+        b.name(late, "late");
+        log.push(format!("id() -> {}; name({}, \"late\")", late, late));
+    }
     log.push("module()".into());
     Some((b.module(), log, version))
 }
